@@ -405,3 +405,25 @@ def quiet_warnings():
 
 def fmt_exc():
     return traceback.format_exc(limit=8)
+
+
+def numerical_failure(exc):
+    """True if the exception currently being handled is a numerical failure inside third-party numerics (numpy / scipy /
+    numdifftools / iminuit: nan or inf cost far from the optimum, singular numerical Hessian) or kafe2's nan-symmetry assertion
+    on the numerical Hessian.  Such an operation has no answer; monitors count it as discarded instead of judging it."""
+    import sys
+
+    import numpy as np
+
+    tb = sys.exc_info()[2]
+    if tb is None:
+        return False
+    while tb.tb_next:
+        tb = tb.tb_next
+    inner = tb.tb_frame.f_code
+    third_party = "site-packages" in inner.co_filename
+    if isinstance(exc, np.linalg.LinAlgError):
+        return True
+    if isinstance(exc, AssertionError) and inner.co_name in ("hessian", "hessian_inv"):
+        return True
+    return third_party and isinstance(exc, (IndexError, RuntimeError, FloatingPointError, ZeroDivisionError, OverflowError, ValueError, AssertionError))
